@@ -1,4 +1,4 @@
-"""C15 — shard-to-tensor-block recovery yields valid sub-tensors, as views (minimality bounded only).
+"""C15 — shard-to-tensor-block recovery yields the fewest valid sub-tensors, as views.
 
 Engine E2 with recursion by contract: the nested function `block_within_tensor_shard_recovery` is rebuilt from the
 REAL code object found in `_split_tensor_block_recovery.__code__.co_consts` (no text is copied), its closure cell for
@@ -13,8 +13,29 @@ symbolic), and one level of the recursion is executed for every concrete `dimens
   decreases order - dimension (dimension is concrete and strictly increases at every recursive call)
 
 Both copies (FSDP, HSDP) are verified separately against the same contract and additionally executed side by side on
-the same symbolic inputs with the same stub (relational obligation: identical results).  Minimality (fewest pieces)
-is a combinatorial optimality statement — bounded only (exhaustive small shapes against a DP optimum).
+the same symbolic inputs with the same stub (relational obligation: identical results).
+
+Minimality ("no decomposition into such slabs has fewer pieces").  A slab of level j is a range [a R_j, (a+k) R_j), k >= 1, inside one
+cell of R_{j-1}.  Write opt_d(s,e) for the fewest slabs of levels >= d that tile [s,e), L = ceil(s/R_d) R_d, R = floor(e/R_d) R_d.
+  code side (obligation `ensures:pieces-follow-the-optimal-recurrence`, every level, both copies): the real code returns
+      []                                                        if s = e
+      one piece                                                 at the last dimension
+      rec(d+1, [s,e))                                           if L > R
+      rec(d+1, [s,L)) ++ [the slab [L,R) iff L < R] ++ rec(d+1, [R,e))   otherwise,
+    and every recursive call satisfies the precondition  e - s < R_{d-1}  (range strictly inside one cell of the previous level).
+  specification side (case `lemma/minimality`, pure integer arithmetic, no code): for ANY valid slab inside [s,e)
+      (a) level d: it lies inside [L,R)                                   (`level-d-slab-lies-in-the-centre`; hence none if L >= R)
+      (b) level j > d: it lies in one cell of R_{j-1}, cells nest (`cells-nest`), so it lies in one cell of R_d, so entirely in
+          [s,L), [L,R) or [R,e)                                           (`deeper-slab-lies-in-one-part`)
+      (c) level j < d: impossible under the precondition e - s < R_{d-1}  (`no-shallower-slab-fits`)
+      (d) L > R: [s,e) lies strictly inside one cell of R_d               (`no-boundary-inside=>...`), L <= R: the partial ranges are
+          shorter than R_d                                                (`partials-are-smaller-than-a-cell`).
+  counting step (on paper; finite sums and induction on order - d — the one part that is cited, not machine-checked): let P be any
+  tiling of [s,e) by valid slabs.  By (c) all its slabs have level >= d.  If L > R, by (a) none has level d, so |P| >= opt_{d+1}(s,e),
+  which the code attains by induction.  Otherwise by (a),(b) P splits into tilings P_l, P_c, P_r of [s,L), [L,R), [R,e); P_l and P_r
+  contain no level-d slab by (a) (they lie outside [L,R)), so |P_l| >= opt_{d+1}(s,L), |P_r| >= opt_{d+1}(R,e), and |P_c| >= 1 iff L < R:
+  |P| >= opt_{d+1}(s,L) + [L < R] + opt_{d+1}(R,e), which is the number of pieces of the recurrence above.  At the last dimension a
+  non-empty range needs at least one piece.  The bounded tier still compares with a DP optimum on all small shapes.
 """
 from __future__ import annotations
 
@@ -37,7 +58,7 @@ TRUSTED = [
     "ASSUMED contracts: Tensor.narrow(0, start, length) is the view [start, start+length) of a flat tensor (requires 0 <= start, length >= 0, start+length <= numel), never a copy; Tensor.view([-1, *rest]) requires numel divisible by prod(rest) and keeps the storage; math.prod is the product",
     "recursion by contract: the contract is assumed at recursive call sites (structural induction on order - dimension; dimension concrete)",
     "orders 0..5 enumerated (the property's domain); every extent >= 1 symbolic; nonlinear integer arithmetic decided by z3 (floor division encoded exactly)",
-    "MINIMALITY of the decomposition is NOT proved (bounded: exhaustive shapes with numel <= 36/64 against a DP optimum)",
+    "MINIMALITY: the code is proved to follow the optimal recurrence and the arithmetic lemmas (a)-(d) of the lower bound are discharged (z3 with div/mul monotonicity instances; `cells-nest` by cvc5 QF_NIA); the counting / induction step that combines them is a paper argument (module docstring), cross-checked by the bounded tier (exhaustive shapes with numel <= 36/64 against a DP optimum)",
 ]
 ASSUMPTIONS = ["extents >= 1; 0 <= start <= end <= numel; the shard has end - start elements"]
 EXPLANATION = "one recursion level of the real nested function per (order, dimension) against the contract, for both copies, plus the top-level wrapper and a relational FSDP = HSDP obligation"
@@ -194,6 +215,7 @@ def cases(tier):
     for order in range(0, 6):
         for d in range(0, max(order, 1)):
             cs.append(f"agree/o{order}/d{d}")
+    cs.append("lemma/minimality")
     return cs
 
 
@@ -220,6 +242,8 @@ def _pre(shape, order, d, s, e):
     if d > 0:
         Rp = _R(shape, d - 1)
         c.append(z3.Implies(_t(s) < _t(e), _t(s) / Rp == (_t(e) - 1) / Rp))
+        # ... and strictly smaller than that cell (used by the minimality argument: no slab of a shallower level fits in the range)
+        c.append(_t(e) - _t(s) < Rp)
     return z3.And(*c)
 
 
@@ -295,6 +319,32 @@ def _level_case(case):
                         goals.append(lo / Rp == (hi - 1) / Rp)
         out.append(prove(f"{func}/ensures:ordered-gap-free-valid-slabs{tag}", func, hyp, z3.And(*goals), model_vars=mv, case=case, replay=rp,
                          text="result chains from s to e without gaps; empty range gives []; every explicit piece is a non-empty slab m x shape[d+1:] aligned to R_d inside one cell of R_{d-1}, as a view (narrow/view) of the shard"))
+        # ---- minimality, code side: the pieces follow the optimal recurrence (see the module docstring, "Minimality")
+        pieces = [x for x in segs if isinstance(x, Piece)]
+        chains = [x for x in segs if isinstance(x, Chain)]
+        flats = [x for x in segs if isinstance(x, Flat)]
+        if not segs:
+            g2 = S == E
+        elif d == order - 1:
+            g2 = z3.And(z3.BoolVal(len(segs) == 1 and len(flats) == 1), _t(segs[0].lo) == S, _t(segs[0].hi) == E)
+        else:
+            # semantic, not syntactic: empty recursive calls may be present or omitted, in any arrangement
+            Rd = _R(shape, d)
+            Lc, Rc = ((S + Rd - 1) / Rd) * Rd, (E / Rd) * Rd
+            conj = [z3.BoolVal(len(pieces) <= 1 and not flats and all(c.level == d + 1 for c in chains))]
+            if pieces:
+                conj += [_t(pieces[0].lo) == Lc, _t(pieces[0].hi) == Rc]
+            else:
+                conj.append(z3.Not(Lc < Rc))  # a non-empty aligned centre must be ONE explicit slab
+            for c in chains:  # a recursive call never straddles the centre
+                conj.append(z3.Or(_t(c.lo) == _t(c.hi), _t(c.hi) <= Lc, _t(c.lo) >= Rc, Lc > Rc))
+            for x, y in zip(segs, segs[1:]):  # at most one non-empty recursive call per side
+                if isinstance(x, Chain) and isinstance(y, Chain):
+                    conj.append(z3.Or(_t(x.lo) == _t(x.hi), _t(y.lo) == _t(y.hi), z3.And(_t(x.hi) <= Lc, _t(y.lo) >= Rc, Lc <= Rc)))
+            g2 = z3.And(*conj)
+        out.append(prove(f"{func}/ensures:pieces-follow-the-optimal-recurrence{tag}", func, hyp, g2, model_vars=mv, case=case, replay=rp, nia=True,
+                         text="last dimension: one piece; otherwise with L = ceil(s/R_d) R_d, R = floor(e/R_d) R_d: L > R -> the result of level d+1 on [s,e); "
+                              "else rec(d+1,[s,L)) ++ [one slab [L,R) iff L < R] ++ rec(d+1,[R,e)) — the recurrence whose piece count is proved minimal by the lemma case"))
     out.append(result(f"{func}/cover:paths[{case}]", func, "violated" if nret else "discharged", kind="cover", case=case, extra=dict(paths=len(paths))))
     if order >= 1:
         out.append(prove(f"{func}/canary:range-always-aligned[{case}]", func, z3.And(z3.Int("s") >= 0, z3.Int("n0") >= 1),
@@ -376,7 +426,38 @@ def _agree_case(case):
     return out
 
 
+def _lemma_case(case):
+    """Arithmetic lemmas of the minimality argument (about the SPECIFICATION: slabs and ranges of integers; no code involved).
+    R_d = Rd is any positive integer, so they hold at every level of every shape."""
+    func = "lemma:minimal-slab-decomposition"
+    s, e, lo, hi, Rd, a, k, Rj, q, Rp = z3.Ints("s e lo hi Rd a k Rj q Rp")
+    L, R = ((s + Rd - 1) / Rd) * Rd, (e / Rd) * Rd
+    rng = z3.And(Rd >= 1, 0 <= s, s <= lo, lo < hi, hi <= e)
+    mv = dict(s=s, e=e, lo=lo, hi=hi, Rd=Rd, a=a, k=k, Rj=Rj, q=q, Rp=Rp)
+    out = []
+
+    def lem(name, hyp, goal, text, **kw):
+        out.append(prove(f"{func}/{name}[{case}]", func, hyp, goal, model_vars=mv, case=case, text=text, **kw))
+
+    lem("level-d-slab-lies-in-the-centre", z3.And(rng, lo == a * Rd, hi == (a + k) * Rd, k >= 1), z3.And(L <= lo, hi <= R), nia=True,
+        text="a slab k x shape[d+1:] (lo = a R_d, hi = (a+k) R_d) inside [s,e) lies inside [L,R) with L = ceil(s/R_d) R_d, R = floor(e/R_d) R_d; in particular L < R")
+    lem("deeper-slab-lies-in-one-part", z3.And(rng, lo / Rd == (hi - 1) / Rd, L <= R), z3.Or(hi <= L, z3.And(L <= lo, hi <= R), R <= lo), nia=True,
+        text="a range inside one cell of R_d and inside [s,e) lies entirely in [s,L), [L,R) or [R,e) (L, R are multiples of R_d)")
+    lem("cells-nest", z3.And(Rj >= 1, q >= 1, Rd == q * Rj, lo >= 0, hi > lo, lo / Rj == (hi - 1) / Rj), lo / Rd == (hi - 1) / Rd, plain=True, timeout_s=40,
+        text="R_{j-1} divides R_d for j > d (R_d = q R_{j-1}): a slab of level j, which lies in one cell of R_{j-1}, lies in one cell of R_d")
+    lem("no-shallower-slab-fits", z3.And(Rp >= 1, q >= 1, Rj == q * Rp, rng, e - s < Rp, lo == a * Rj, hi == (a + k) * Rj, k >= 1), z3.BoolVal(False), nia=True,
+        text="under the recursion precondition e - s < R_{d-1}, no slab of a level j < d (unit R_j = q R_{d-1}) fits inside [s,e)")
+    lem("no-boundary-inside=>one-cell-and-no-level-d-slab", z3.And(Rd >= 1, 0 <= s, s < e, L > R), z3.And(s / Rd == (e - 1) / Rd, e - s < Rd), nia=True,
+        text="L > R: the range lies strictly inside one cell of R_d (so the precondition of level d+1 holds and, by the first lemma, no level-d slab fits)")
+    lem("partials-are-smaller-than-a-cell", z3.And(Rd >= 1, 0 <= s, s <= e, L <= R), z3.And(s <= L, R <= e, L - s < Rd, e - R < Rd), nia=True,
+        text="L <= R: both partial ranges [s,L) and [R,e) are shorter than R_d (precondition of level d+1)")
+    out.append(prove(f"{func}/canary:every-range-is-aligned[{case}]", func, rng, lo % Rd == 0, kind="canary", case=case))
+    return out
+
+
 def run_case(case, tier, seed):
+    if case == "lemma/minimality":
+        return _lemma_case(case)
     if case.startswith("level/"):
         return _level_case(case)
     if case.startswith("top/"):
